@@ -52,10 +52,11 @@ func cmdRun(args []string) {
 	fn := fs.String("fn", "", "harness function")
 	workers := fs.Int("workers", 16, "workers")
 	known := fs.String("known", "", "comma separated open known findings")
-	var params multi
+	var params, execs multi
 	fs.Var(&params, "param", "K=V")
+	fs.Var(&execs, "exec", "package path whose functions are executed instead of havoc'd")
 	fs.Parse(args)
-	spec := JobSpec{Name: *fn, Dir: *dir, Pkg: *pkg, Fn: *fn, Params: map[string]int64{}}
+	spec := JobSpec{Name: *fn, Dir: *dir, Pkg: *pkg, Fn: *fn, Params: map[string]int64{}, Exec: execs}
 	for _, p := range params {
 		kv := strings.SplitN(p, "=", 2)
 		v, _ := strconv.ParseInt(kv[1], 10, 64)
@@ -166,6 +167,17 @@ func runGroup(dir string, specs []JobSpec, knownOpen map[string]bool, workers in
 				}
 				found = true
 				break
+			}
+		}
+		if !found { // a module whose declared path does not match its directory (kratos declares .../kitex)
+			for _, p := range prog.AllPackages() {
+				if strings.HasPrefix(p.Pkg.Path(), modPrefix) && p.Func(sp.Fn) != nil {
+					if err := eng.start(j, p); err != nil {
+						return nil, nil, err
+					}
+					found = true
+					break
+				}
 			}
 		}
 		if !found {
